@@ -22,12 +22,12 @@ ASSUME TLCSet(1, <<>>)
 Cnt(st) == [req |-> st.reqn, end |-> st.ended, err |-> st.errs,
             cease |-> IF st.ceased THEN 1 ELSE 0]
 
-XInit == \E i \in 1..NProg : s = CloseAll(Started(InitState(i))) /\ h = <<>>
+XInit == \E i \in 1..NProg : s = CloseQuiet(Started(InitState(i))) /\ h = <<>>
 
 XAnswer ==
   /\ Len(h) < MaxSteps
   /\ \E t \in ReqToks(s) : \E pl \in Payloads(s.p, Node(s.p, t.at)) :
-        /\ s' = CloseAll(AnswerOK(s, t, pl))
+        /\ s' = CloseQuiet(AnswerOK(s, t, pl))
         /\ h' = Append(h, [op |-> "answer", node |-> t.at, occ |-> t.occ, vars |-> pl,
                            kind |-> "", n |-> 0, pre |-> Cnt(s)])
 
